@@ -85,6 +85,17 @@ def _coo_dup(c):
     return sp.coo_matrix((np.concatenate([c[r, k] * 0.25, c[r, k] * 0.75]), (np.concatenate([r, r]), np.concatenate([k, k]))), shape=c.shape)
 
 
+
+def _dedupe(cases_):
+    """the same cell can be listed by two enumerations (e.g. a tall shape that the thorough bound also reaches): keep the first."""
+    seen, out_ = set(), []
+    for c in cases_:
+        if c["key"] not in seen:
+            seen.add(c["key"])
+            out_.append(c)
+    return out_
+
+
 def cases(tier, seed):
     S = 3 if tier == "quick" else 5
     out = []
@@ -110,7 +121,7 @@ def cases(tier, seed):
     # matrices whose dominant singular direction is quaternion-orthogonal to a canonical fixed probe vector, the probe being the second one
     for (m, n) in ((5, 4), (4, 5), (6, 6)):
         out.append({"key": f"probe/{m}x{n}", "grp": "probe", "m": m, "n": n})
-    return out
+    return _dedupe(out)
 
 
 def lib_norms(lib, Aq):
